@@ -168,6 +168,9 @@ class DecoratorManager(ABC):
 
     async def start(self):
         """Start all decorators."""
+        if self.status is DecoratorManagerStatus.STOPPED:
+            # stopped before it was started (its function went away while the global context was not started yet)
+            return
         if self.status is not DecoratorManagerStatus.VALIDATED:
             raise RuntimeError(f"Starting not valid {self}")
 
